@@ -5,6 +5,7 @@ CONSTANTS
   BareSendPublishBatch = TRUE
   BareSendDiscover = FALSE
   UnbufferedSelRecvReply = FALSE
+  BareSendMsg = FALSE
   BatchCap = 1
   DiscCap = 1
   SendCap = 1
